@@ -18,10 +18,12 @@ THOROUGH_FACTOR = 24
 RUNTIME = {
     'C01': [('random', 'ties', 12000, 'trace'), ('random', 'generic', 6000, 'trace'),
             ('random', 'nesting', 6000, 'trace'), ('random', 'windows', 3000, 'trace'),
-            ('random', 'forever', 2000, 'trace'), ('sweep', 'tie', 4, 'trace')],
+            ('random', 'forever', 2000, 'trace'), ('sweep', 'tie', 4, 'trace'),
+            ('suite',)],
     'C02': [('random', 'ties', 14000, 'trace'), ('random', 'windows', 5000, 'trace'),
             ('random', 'forever', 5000, 'trace'), ('random', 'generic', 5000, 'trace'),
-            ('sweep', 'tie', 4, 'trace'), ('sweep', 'window', 2, 'trace')],
+            ('sweep', 'tie', 4, 'trace'), ('sweep', 'window', 2, 'trace'),
+            ('suite',)],
     'C03': [('random', 'windows', 12000, 'trace'), ('random', 'generic', 6000, 'trace'),
             ('random', 'abort', 4000, 'trace'), ('random', 'forever', 4000, 'trace'),
             ('random', 'nesting', 4000, 'trace'), ('sweep', 'window', 3, 'trace'),
@@ -37,7 +39,8 @@ RUNTIME = {
             ('sweep', 'window', 2, 'c06')],
     'C07': [('random', 'windows', 15000, 'trace'), ('random', 'nesting', 5000, 'trace'),
             ('random', 'abort', 4000, 'trace'), ('sweep', 'phasew', 3, 'trace'),
-            ('sweep', 'window', 3, 'trace')],
+            ('sweep', 'window', 3, 'trace'),
+            ('suite',)],
     'C08': [('random', 'abort', 12000, 'trace'), ('random', 'generic', 6000, 'trace'),
             ('random', 'nesting', 4000, 'trace'), ('sweep', 'phase', 2, 'trace'),
             ('sweep', 'cube', 2, 'trace'), ('sweep', 'phasew', 2, 'trace')],
@@ -49,13 +52,16 @@ RUNTIME = {
             ('random', 'ties', 3000, 'twin')],
     'C11': [('sweep', 'phase', 3, 'trace'), ('sweep', 'phasew', 3, 'trace'),
             ('random', 'nesting', 8000, 'trace'), ('random', 'abort', 6000, 'trace'),
-            ('random', 'generic', 5000, 'trace'), ('random', 'shutdown', 4000, 'trace')],
+            ('random', 'generic', 5000, 'trace'), ('random', 'shutdown', 4000, 'trace'),
+            ('suite',)],
     'C12': [('random', 'ties', 12000, 'trace'), ('random', 'windows', 10000, 'trace'),
             ('random', 'generic', 4000, 'trace'), ('random', 'forever', 3000, 'trace'),
-            ('sweep', 'tie', 4, 'trace'), ('sweep', 'window', 2, 'trace')],
+            ('sweep', 'tie', 4, 'trace'), ('sweep', 'window', 2, 'trace'),
+            ('random', 'ties', 4000, 'perm'), ('random', 'nesting', 3000, 'perm')],
     'C13': [('random', 'shutdown', 14000, 'trace'), ('sweep', 'phase', 2, 'trace'),
             ('random', 'nesting', 5000, 'trace'), ('random', 'abort', 4000, 'trace'),
-            ('random', 'generic', 3000, 'trace'), ('sweep', 'phasew', 2, 'trace')],
+            ('random', 'generic', 3000, 'trace'), ('sweep', 'phasew', 2, 'trace'),
+            ('suite',)],
     'C14': [('random', 'generic', 6000, 'poll'), ('random', 'windows', 6000, 'poll'),
             ('random', 'abort', 4000, 'poll'), ('random', 'nesting', 4000, 'poll'),
             ('random', 'forever', 3000, 'poll'), ('sweep', 'window', 1, 'poll')],
@@ -89,7 +95,8 @@ DECIDING = {
             'shutdown handlers launched before a run end'],
     'C12': ['eligible jobs in unwindowed schedulers', '  ... whose requirements finished in one instant',
             'quiescent instants of windowed schedulers examined',
-            '  ... with eligible jobs waiting behind a full window'],
+            '  ... with eligible jobs waiting behind a full window',
+            'job start/end instants compared across orders'],
     'C13': ['atoms counted at a run end', 'shutdown events checked against running siblings',
             'shutdown phases timed', 'co_shutdown() returning False', 'explicit shutdown() after the run',
             'shutdown phases cut at shutdown_timeout'],
